@@ -26,10 +26,45 @@ LEVEL = "proof"
 
 def features(r):
     f = ["recursion"]
-    for x in ("mutual", "multi_rec_atoms", "cmp", "neg", "arith", "symbols", "unsigned"):
+    for x in ("mutual", "multi_rec_atoms", "cmp", "neg", "arith", "symbols", "unsigned", "nullary"):
         if r.chance(1, 2):
             f.append(x)
     return f
+
+
+def gated(rng):
+    """directed family: a recursive stratum {b, gate, a} in which a rule joins a growing relation with a GATE of the same
+    stratum that becomes true in some middle round -- a nullary relation, a relation read only through wildcards, or an
+    ordinary unary one. Every b-tuple found after the gate opened must still be combined with the (by then old) gate tuple;
+    the shapes without a scan (nullary, all-wildcard) are exactly those the RAM validator does not cover, so the differential
+    against the proved least model carries them."""
+    import gen as G
+    p = G.Prog()
+    p.features = {"recursion", "mutual", "multi_rec_atoms", "gated"}
+    mk = lambda name, types, kind: p.rels.append(G.Rel(len(p.rels), name, types, kind)) or p.rels[-1]
+    n = rng.range(3, 9)
+    e = mk("e", ["number", "number"], "edb")
+    p.facts["e"] = list({(i, i + 1) for i in range(1, n)} | {(rng.range(1, n), rng.range(1, n)) for _ in range(rng.range(0, 3))})
+    shape = rng.choice(["nullary", "nullary", "wild", "unary"])
+    b = mk("b", ["number"], "idb")
+    g = mk("g", {"nullary": [], "wild": ["number", "number"], "unary": ["number"]}[shape], "idb")
+    a = mk("a", ["number"], "idb")
+    for r in (b, g, a):
+        r.layer, r.output = 1, True
+    V = lambda nm: ("var", nm, "number")
+    N = lambda z: ("num", z, "number")
+    k = rng.range(1, n)
+    p.clauses.append(("b", [N(1)], []))
+    p.clauses.append(("b", [V("y")], [("pos", "b", [V("x")]), ("pos", "e", [V("x"), V("y")])]))
+    ghead = {"nullary": [], "wild": [V("x"), V("x")], "unary": [N(7)]}[shape]
+    p.clauses.append(("g", ghead, [("pos", "b", [V("x")]), ("cmp", "eq", V("x"), N(k))]))
+    gatom = ("pos", "g", {"nullary": [], "wild": [("anon", "number"), ("anon", "number")], "unary": [("anon", "number")]}[shape])
+    body = [("pos", "b", [V("x")]), gatom]
+    if rng.chance(1, 2):
+        body.reverse()
+    p.clauses.append(("a", [V("x")], body))
+    p.clauses.append(("b", [V("y")], [("pos", "a", [V("x")]), ("cmp", "eq", V("x"), N(rng.range(1, n))), ("cmp", "eq", V("y"), ("op", "add", [V("x"), N(100)], "number"))]))
+    return p
 
 
 def main(pid, tier, seed, replay):
@@ -45,6 +80,7 @@ def main(pid, tier, seed, replay):
     validator = C.ocaml_driver("snram")
     n = 120 if tier == "quick" else 2500
     progs = P.gen_programs(chk.rng.fork(pid), n, features, size=2.0)
+    progs += [gated(chk.rng.fork("gated%d" % i)) for i in range(24 if tier == "quick" else 400)]
     stats, oracle = P.differential(chk, progs, lambda p: [P.Config("interpreter -j1")],
                                    nontrivial=lambda p, o: max(o[2] or [0]) >= 2)
     vstats = {"strata": 0, "accepted": 0, "unsupported_by_translator": {}, "rejected": 0, "max_scc_atoms": 0, "versions": 0}
